@@ -4,3 +4,5 @@ import ChaiVerif.Props.C16
 import ChaiVerif.Drv.Lit
 import ChaiVerif.Props.C12
 import ChaiVerif.Drv.Stl
+import ChaiVerif.Props.C19
+import ChaiVerif.Drv.File
